@@ -54,6 +54,7 @@ def main(argv=None):
                              stdout=log, stderr=subprocess.STDOUT)
         procs.append((p, out, log))
     merged = common.Result()
+    linecov = {}
     inconclusive = []
     deadline = t0 + limit
     shard_walls = []
@@ -78,6 +79,8 @@ def main(argv=None):
                 merged.sample(s, cap=6)
             inconclusive.extend(d['inconclusive'])
             shard_walls.append(d.get('wall_s', 0))
+            for f, lns in d.get('linecov', {}).items():
+                linecov.setdefault(f, set()).update(lns)
         elif not any('shard %d ' % i in x for x in inconclusive):
             tail = open(os.path.join(tmp, 'shard_%d.log' % i)).read()[-800:]
             inconclusive.append('shard %d produced no result: %s' % (i, tail))
@@ -142,6 +145,10 @@ def main(argv=None):
         'coverage': cov, 'assumptions': getattr(mod, 'ASSUMPTIONS', []),
         'wall_s': round(wall, 2), 'violations': len(unlisted),
     }
+    if os.environ.get('VERIF_LINECOV') and os.environ.get('VERIF_LINECOV_OUT'):
+        os.makedirs(os.environ['VERIF_LINECOV_OUT'], exist_ok=True)
+        common.write_json(os.path.join(os.environ['VERIF_LINECOV_OUT'], '%s_%s_%d.json' % (prop, tier, seed)),
+                          {f: sorted(v) for f, v in linecov.items()})
     if not os.environ.get('VERIF_NO_EVIDENCE'):
         common.write_json(os.path.join(common.VERIF, 'evidence', prop + '.json'), ev)
     shutil.rmtree(tmp, ignore_errors=True)
